@@ -5,6 +5,7 @@ package main
 
 import (
 	"fmt"
+	"go/types"
 	"math/big"
 	"runtime/debug"
 	"sort"
@@ -28,6 +29,7 @@ type FnResult struct {
 	Secs        float64
 	Rounds      int
 	HasContract bool
+	IsTrusted   bool
 }
 
 type VerifyOpts struct {
@@ -36,6 +38,7 @@ type VerifyOpts struct {
 	Keep     bool
 	NoAuto   bool
 	Hooks    func(e *Exec) // property-specific hooks (locks, labels)
+	Alloc    bool          // generate allocation-bound obligations
 }
 
 func (e *Exec) setupEntry() {
@@ -70,6 +73,9 @@ func (e *Exec) setupEntry() {
 		e.params = append(e.params, v)
 	}
 	e.st0 = e.st.clone()
+	if e.allocOn {
+		e.inSize = e.inputSize()
+	}
 	if e.con != nil {
 		env := e.paramEnv(e.st, nil)
 		for _, rq := range e.con.Requires {
@@ -87,11 +93,16 @@ func (e *Exec) setupEntry() {
 
 func (p *Program) newRootExec(f *ssa.Function, opts *Options, vo *VerifyOpts) *Exec {
 	vc := NewVC(fnName(f), p.Specs)
-	e := &Exec{P: p, vc: vc, fn: f, con: p.Contracts[fnName(f)], opts: opts,
+	con, ifc := p.contractFor(f)
+	e := &Exec{P: p, vc: vc, fn: f, con: con, ifaceCon: ifc, opts: opts,
 		root: &rootCtx{heap0: map[string]*Term{}, heapSorts: map[string]string{}, strLits: map[string]*Term{}, candObls: map[string][]*Obligation{}},
 		regs: map[ssa.Value]Val{}, guard: map[*ssa.BasicBlock]*Term{}, out: map[*ssa.BasicBlock]*State{}, brCond: map[*ssa.BasicBlock]*Term{}}
+	vc.rootExec = e
 	if vo != nil && vo.Hooks != nil {
 		vo.Hooks(e)
+	}
+	if vo != nil {
+		e.allocOn = vo.Alloc
 	}
 	return e
 }
@@ -99,8 +110,14 @@ func (p *Program) newRootExec(f *ssa.Function, opts *Options, vo *VerifyOpts) *E
 // VerifyFunction generates and discharges all obligations of one function.
 func (p *Program) VerifyFunction(f *ssa.Function, vo *VerifyOpts) (res *FnResult) {
 	t0 := time.Now()
-	res = &FnResult{Fn: fnName(f), HasContract: p.Contracts[fnName(f)] != nil}
+	cf, _ := p.contractFor(f)
+	res = &FnResult{Fn: fnName(f), HasContract: cf != nil}
 	defer func() { res.Secs = time.Since(t0).Seconds() }()
+	if cf != nil && cf.Trusted != "" {
+		res.Trusted = []string{"body of " + res.Fn + " not verified: " + cf.Trusted}
+		res.IsTrusted = true
+		return res
+	}
 	opts := &Options{Disabled: map[string]bool{}, NoAuto: vo.NoAuto}
 	var e *Exec
 	for round := 0; round < 8; round++ {
@@ -134,7 +151,7 @@ func (p *Program) VerifyFunction(f *ssa.Function, vo *VerifyOpts) (res *FnResult
 		if len(cands) == 0 {
 			break
 		}
-		SolveAll(cands, 3, vo.Workers, false)
+		SolveAll(cands, 3, vo.Workers, vo.Keep)
 		dropped := false
 		for key, os := range e.root.candObls {
 			for _, o := range os {
@@ -183,4 +200,71 @@ func (p *Program) VerifyFunction(f *ssa.Function, vo *VerifyOpts) (res *FnResult
 	}
 	sort.Strings(res.Trusted)
 	return res
+}
+
+// inputSize: sum of the lengths of []byte / string parameters and of the []byte / string fields
+// (one level, through pointers) of struct parameters.
+func (e *Exec) inputSize() *Term {
+	sum := bv64zero
+	add := func(t *Term) { sum = BVAdd(sum, t) }
+	var walk func(v *Term, t types.Type, depth int)
+	walk = func(v *Term, t types.Type, depth int) {
+		t = types.Unalias(t)
+		switch u := t.Underlying().(type) {
+		case *types.Basic:
+			if isString(t) {
+				add(StrLen(v))
+			}
+		case *types.Slice:
+			add(SlLen(v))
+		case *types.Struct:
+			if depth >= 2 || isTimeType(t) {
+				return
+			}
+			si := structInfo(t)
+			for i, f := range si.Fields {
+				walk(FieldSel(si, v, i), f.GoT, depth+1)
+			}
+		case *types.Pointer:
+			if depth >= 1 {
+				return
+			}
+			if _, ok := types.Unalias(u.Elem()).Underlying().(*types.Struct); ok {
+				n, s := objHeap(u.Elem())
+				walk(Select(e.heapGet(n, s), v), u.Elem(), depth+1)
+			}
+		}
+	}
+	for i, p := range e.fn.Params {
+		func() {
+			defer func() { recover() }()
+			walk(e.toTermQuiet(e.params[i], p.Type()), p.Type(), 0)
+		}()
+	}
+	return e.vc.Define("insize", sum)
+}
+
+// contractFor: the function's own contract, or the contract of an interface method it implements
+// (behavioural subtyping: every repository implementation is verified against the interface contract).
+func (p *Program) contractFor(f *ssa.Function) (*Contract, types.Type) {
+	if c := p.Contracts[fnName(f)]; c != nil {
+		return c, nil
+	}
+	if f.Signature.Recv() == nil {
+		return nil, nil
+	}
+	recv := f.Signature.Recv().Type()
+	for key, c := range p.Contracts {
+		if !strings.HasSuffix(key, ")."+f.Name()) || !strings.HasPrefix(key, "(") {
+			continue
+		}
+		it := p.lookupType(key[1:strings.LastIndex(key, ")")])
+		if it == nil {
+			continue
+		}
+		if iface, ok := it.Underlying().(*types.Interface); ok && types.Implements(recv, iface) {
+			return c, it
+		}
+	}
+	return nil, nil
 }
